@@ -261,7 +261,7 @@ def main(tier, replay=None):
     classes['fixed-configurations'] = len(uniq)
     classes['named-groups'] = len(groups)
     # random subsets with Hypothesis (shrinks towards fewer enabled methods)
-    nrand = 40 if tier == 'quick' else 1500
+    nrand = 40 if tier == 'quick' else 400
     failure = []
 
     @hseed(vseed)
